@@ -154,6 +154,8 @@ META = (META[0] + ' SELFMOVE (no algorithm move-assigns an element onto itself).
 
 META = (META[0] + ' STALEREP (an element cached as the representative of the current group is refreshed in the loop that starts new groups; controls in fixtures/extra8_pos.hpp); TIE covers minmax.', META[1])
 
+META = (META[0] + ' PREVBOUND (a loop that stops at `!= prev(last)` knows the range is not empty; controls in fixtures/extra8_pos.hpp).', META[1])
+
 
 def run(chk, tier):
     db = D.load("checks")
@@ -168,7 +170,8 @@ def run(chk, tier):
         chk.analysis_broken("TIEMOVE: fewer than 2 stable algorithms with a functor-guarded reordering (floor 2)")
     from ..rules import extra8 as _X8
     _X8.dist_guard_area(chk, db, ['_algorithm/', '_numeric/'])      # DISTGUARD
-    _X8.positive_controls(chk, D, ('DISTGUARD', 'STALEREP'))
+    _X8.positive_controls(chk, D, ('DISTGUARD', 'STALEREP', 'PREVBOUND'))
+    _X8.prev_bound_area(chk, db, ['_algorithm/', '_numeric/'])      # PREVBOUND
     _X8.stale_rep_area(chk, db, ['_algorithm/', '_numeric/'])      # STALEREP (zero expected on the library)
     if _X8.self_move_area(chk, db, ['_algorithm/']) < 3:      # SELFMOVE
         chk.analysis_broken('SELFMOVE: fewer than 3 algorithms that move-assign through two cursors (floor 3)')
